@@ -8,6 +8,7 @@
 
 mod checks;
 mod conc;
+mod fault;
 mod http;
 mod model;
 mod ops;
